@@ -90,9 +90,9 @@ Definition oms_s (o : oms_rec) : string :=
 
 Definition net_case (g : graph) (si : band) (d : list line) : string :=
   match build_oms_list g si with
-  | Err e => append (err_s e) (append "#" (bs (chain_wf_b g d)))
+  | Err e => append (err_s e) (append "#" (append (bs (chain_wf_b g d)) (bs (net_hyps_b g si d))))
   | Ok r =>
       join "#" [join "/" (map oms_s r);
-                bs (chain_wf_b g d);
+                append (bs (chain_wf_b g d)) (bs (net_hyps_b g si d));
                 ozlist_s (map (fun n => last_owner (map el_ids r) (uid n) 0 None) g)]
   end.
